@@ -51,7 +51,23 @@ pub fn canonical_file() -> String {
     t
 }
 
-pub const SUBST: &[&[u8]] = &[b" ", b"0", b"9", b"A", b"-", b"+", b".", b"x", "\u{e9}".as_bytes(), "\u{2028}".as_bytes(), "\u{1F600}".as_bytes(), b"\x01", b"\xff", b"\t"];
+pub const SUBST: &[&[u8]] = &[b" ", b"0", b"9", b"A", b"-", b"+", b".", b"x", "\u{e9}".as_bytes(), "\u{2028}".as_bytes(), "\u{1F600}".as_bytes(), b"\x01", b"\xff", b"\t",
+    // characters of other Unicode classes: numeric but not ASCII digits, white space that is not ASCII, a combining mark
+    "\u{b2}".as_bytes(), "\u{663}".as_bytes(), "\u{ff11}".as_bytes(), "\u{bd}".as_bytes(), "\u{a0}".as_bytes(), "\u{301}".as_bytes()];
+
+/// the substitution characters by class: blank, ASCII digit, ASCII letter, sign / punctuation, letter of several bytes, numeric
+/// character that is no ASCII digit, white space or mark that is not ASCII, control character, byte that is no UTF-8
+pub const CLASSES: &[&[&[u8]]] = &[
+    &[b" "],
+    &[b"0", b"9"],
+    &[b"A", b"x"],
+    &[b"-", b"+", b"."],
+    &["\u{e9}".as_bytes(), "\u{1F600}".as_bytes()],
+    &["\u{b2}".as_bytes(), "\u{663}".as_bytes(), "\u{ff11}".as_bytes(), "\u{bd}".as_bytes()],
+    &["\u{2028}".as_bytes(), "\u{a0}".as_bytes(), "\u{301}".as_bytes()],
+    &[b"\x01", b"\t"],
+    &[b"\xff"],
+];
 
 /// every prefix, and every single-column substitution / insertion / deletion of one line
 pub fn line_mutations(line: &str, rng: &mut Rng, dense: bool) -> Vec<Vec<u8>> {
@@ -73,7 +89,8 @@ pub fn line_mutations(line: &str, rng: &mut Rng, dense: bool) -> Vec<Vec<u8>> {
         }
     }
     for k in 0..b.len() {
-        let subs: Vec<&[u8]> = if dense { SUBST.to_vec() } else { (0..3).map(|_| *rng.pick(SUBST)).collect() };
+        // not dense: one character of every class at every column (which member of the class is random)
+        let subs: Vec<&[u8]> = if dense { SUBST.to_vec() } else { CLASSES.iter().map(|c| *rng.pick(c)).collect() };
         for s in subs {
             let mut x = b[..k].to_vec();
             x.extend_from_slice(s);
